@@ -50,6 +50,31 @@ Lemma g_fut_cancel s c v : g (fut_cancel s c v) = g s. Proof. apply g_fut_resolv
 Lemma sess_fut_cancel s c v : sess (fut_cancel s c v) = sess s. Proof. apply sess_fut_resolve. Qed.
 Global Hint Rewrite k_fut_complete g_fut_complete sess_fut_complete k_fut_cancel g_fut_cancel sess_fut_cancel : proj.
 
+(* the hidden cleanup stages touch only the state word and the futures *)
+Lemma cu_hidden_frame cu s s0 : cu_hidden cu s = Some s0 ->
+  sess s0 = sess s /\ g s0 = g s /\
+  k_cfg (k s0) = k_cfg (k s) /\ k_api (k s0) = k_api (k s) /\ k_pending (k s0) = k_pending (k s) /\
+  k_returning (k s0) = k_returning (k s) /\ k_ppc (k s0) = k_ppc (k s) /\ k_dpc (k s0) = k_dpc (k s) /\
+  k_kpc (k s0) = k_kpc (k s) /\ k_started (k s0) = k_started (k s).
+Proof.
+  destruct cu; cbn [cu_hidden]; intros H; try discriminate; injection H as <-.
+  - destruct (cst_n (k_cs (k s)) <? 2); [destruct (t_connfut (t s))|]; autorewrite with proj; repeat split; reflexivity.
+  - repeat split; reflexivity.
+  - autorewrite with proj; repeat split; reflexivity.
+Qed.
+
+Ltac use_cu :=
+  repeat match goal with
+  | E : cu_hidden ?cu ?s = Some ?s0 |- _ =>
+    let F := fresh "F" in
+    pose proof (cu_hidden_frame _ _ _ E) as F;
+    destruct F as (?F & ?F & ?F & ?F & ?F & ?F & ?F & ?F & ?F & ?F);
+    destruct cu; try discriminate E; clear E
+  end;
+  repeat match goal with
+  | E : cu_after ?cu _ _ = _ |- _ => first [is_var cu; destruct cu | idtac]; cbn [cu_after] in E
+  end.
+
 (* destruct the head match of H until it reads Some _ = Some _ *)
 Ltac dhead H :=
   lazymatch type of H with
@@ -61,7 +86,7 @@ Ltac dhead H :=
   end.
 
 Ltac unfold_step H :=
-  cbv beta iota zeta delta [step step_tx acquire api_hidden proc_hidden die_hidden cu_hidden] in H.
+  cbv beta iota zeta delta [step step_tx acquire api_hidden proc_hidden die_hidden] in H.
 
 (* all the ways in which step s e = Some s' can hold; leaves s' as an explicit term *)
 Ltac step_cases H :=
@@ -83,7 +108,7 @@ Ltac dgoal :=
 
 (* unfold the control helpers in the goal, splitting on what they branch on *)
 Ltac unfold_ctl :=
-  unfold proc_rx, after_pub_cb; cbv beta zeta; dgoal;
+  unfold proc_rx, after_pub_cb, log_tx; cbv beta zeta; dgoal;
   unfold die_proc, die_ping, die_cu_next, api_cu_next, die_after_cu, die_done, cu_after; cbv beta zeta; dgoal;
   unfold die_done; dgoal.
 
@@ -94,3 +119,26 @@ Ltac use_eqs :=
   | E : k_api (k ?s) = _ |- _ => rewrite E in *; clear E
   | E : k_kpc (k ?s) = _ |- _ => rewrite E in *; clear E
   end.
+
+(* ---- the common opening of an invariance proof: all leaves of one step, simplified *)
+Ltac clean_eqs :=
+  repeat match goal with F : _ ?s0 = _ ?s |- _ => rewrite F in * end; subst; use_eqs;
+  repeat match goal with
+  | E : DCu _ _ _ = DCu _ _ _ |- _ => injection E as ? ? ?; subst
+  | E : DCb _ = DCb _ |- _ => injection E as ?; subst
+  | E : DAProc _ = DAProc _ |- _ => injection E as ?; subst
+  | E : DAProc _ = DAPing |- _ => discriminate E
+  | E : DAPing = DAProc _ |- _ => discriminate E
+  | E : Some _ = Some _ |- _ => injection E as ?; subst
+  | E : (if ?b then _ else _) = None |- _ => destruct b; try discriminate E
+  | E : (if ?b then _ else _) = Some _ |- _ => destruct b
+  end; try discriminate.
+
+Ltac step_leaves H :=
+  step_cases H; use_cu; unfold_ctl; simp_proj; dgoal; simp_proj.
+
+(* every accepted trace ends in a state satisfying an inductive invariant *)
+Lemma reach_inv (Inv : st -> Prop) :
+  Inv init -> (forall s e s', Inv s -> step s e = Some s' -> Inv s') ->
+  forall es s, run step init es = Some s -> Inv s.
+Proof. intros H0 Hs es s Hr. exact (invariant_all_traces st event step Inv init H0 Hs es s Hr). Qed.
